@@ -69,7 +69,7 @@ func (n *ValuePatternDeclarationNode) String() string {
 	buff.WriteString("val ")
 	buff.WriteString(n.Pattern.String())
 	buff.WriteString(" = ")
-	buff.WriteString(n.Initialiser.String())
+	writeExpressionWithoutModifier(&buff, n.Initialiser)
 
 	return buff.String()
 }
